@@ -345,9 +345,12 @@ Definition name_ok (a : attr) : bool :=
   (negb (bytes_eqb (a3_key a) s_xmlns) || match a3_space a with [] => true | _ => false end)
   && negb (bytes_eqb (a3_space a) s_xmlns && (bytes_eqb (a3_key a) s_xml || match a3_key a with [] => true | _ => false end)).
 Definition names_ok (attrs : list attr) : bool := forallb name_ok attrs.
+(* order by (prefix, local name), written down here and not taken from relic's comparator *)
+Definition plain_lt (x y : attr) : bool :=
+  if bytes_eqb (a3_space x) (a3_space y) then str_ltb (a3_key x) (a3_key y) else str_ltb (a3_space x) (a3_space y).
 Definition order_ok (e : env) (attrs : list attr) : bool :=
   let pl := plain_attrs attrs in
-  forallb (fun x => forallb (fun y => Bool.eqb (attr_lt x y) (xattr_lt e x y)) pl) pl.
+  forallb (fun x => forallb (fun y => Bool.eqb (plain_lt x y) (xattr_lt e x y)) pl) pl.
 Definition not_redundant (rendered : env) (attrs : list attr) : bool :=
   forallb (fun d => negb (bytes_eqb (snd d) (env_get rendered (fst d)))) (own_decls attrs).
 Definition code (b : bool) (c : Z) : list Z := if b then [] else [c].
